@@ -2,4 +2,5 @@ Require Extraction.
 Require Import ExtrOcamlBasic.
 From GoPdf.Base Require Import WireAnchor.
 From GoPdf.C12 Require Import Codec.
-Separate Extraction wire_anchor codec decode append_code walk_ranges spec_decode match_len new_codec_tree tdecode.
+Separate Extraction wire_anchor codec linearize lin_ok decode append_code walk_ranges spec_decode match_len
+  new_codec_tree tdecode tree_ranges le_code code_space_range.
